@@ -272,7 +272,12 @@ def gen_ops(rng, sc, length, kinds):
                 # holds x although its ancestor m is not in it; a restart runs m and n, never x
                 g_ = nxg(sc)
                 far = [(a, b) for a in range(n) for b in nx.descendants(g_, a) if not g_.has_edge(a, b)]
-                if far:
+                # ... or BOTH directly and through other nodes (m -> n and m -> x -> n): n still waits for m itself
+                both = [(a, b) for a in range(n) for b in g_.successors(a)
+                        if any(b in nx.descendants(g_, x) for x in g_.successors(a) if x != b)]
+                if both and rng.random() < 0.5:
+                    T = sorted(rng.choice(both))
+                elif far:
                     T = sorted(rng.choice(far))
             ops.append(dict(op="cache", inst=inst, mode=mode, T=T, args=rng.choice([(1,), (2, 3), (5, 6)]),
                             restart=rng.choice(["same", "whole"]), omit_default=rng.random() < 0.5,
@@ -280,12 +285,31 @@ def gen_ops(rng, sc, length, kinds):
                             # the restarted execution may itself checkpoint — into the file it started from, or another one —
                             # and a further restart then starts from THAT file
                             writeback=rng.choice([None, None, "same", "same", "other"]),
-                            deps_link=(sorted(rng.sample(range(n), rng.randint(1, min(2, n)))) if rng.random() < 0.3 else None)))
+                            deps_link=(sorted(rng.sample(range(n), rng.randint(1, min(2, n)))) if rng.random() < 0.3 else None),
+                            dup_deps=rng.random() < 0.3))
     return ops
 
 
 def ids(l):
     return ["n%d" % i for i in l]
+
+
+DRIFT = []    # configuration drift observed on an instance (filled by run_history, read and cleared by the caller)
+PAD = [0]     # counter: every third non-empty target list is PADDED with repeats of its own entries up to exactly the number
+              # of nodes of the DAG's graph (naming a node several times names it once; the list's LENGTH means nothing)
+
+
+def padded(d, lst):
+    PAD[0] += 1
+    if not lst or PAD[0] % 3:
+        return lst
+    want = len(d.graph_ids.nodes)
+    out = list(lst)
+    k = 0
+    while len(out) < want:
+        out.append(lst[k % len(lst)])
+        k += 1
+    return out
 
 
 _CACHE_DIR = [None]
@@ -339,6 +363,9 @@ def run_history(sc, ops):
         CUR[0] = tag
         before = dict(COUNTS)
         rec = dict(op=op)
+        if d.max_concurrency != 2:
+            # no operation of a history reconfigures the concurrency limit: the instance was built with 2 and keeps it
+            DRIFT.append(dict(before_op=op, max_concurrency=d.max_concurrency, inst=inst))
 
         def attempt(fn):
             # under schedule control (random completion orders); afterwards wait for every pooled
@@ -371,7 +398,7 @@ def run_history(sc, ops):
                                                    " ".join(enc(a) for a in op["args"])))
         elif op["op"] == "exec":
             sel = anc_closure(sc, op["T"])
-            rec["out"] = attempt(lambda: d.executor(target_nodes=ids(op["T"]))(*op["args"]))
+            rec["out"] = attempt(lambda: d.executor(target_nodes=padded(d, ids(op["T"])))(*op["args"]))
             # the model computes the selection itself from the targets (GM.selectNodes)
             rec["line"] = len(lines); lines.append("O %d execT %d %s %d %s" % (inst, len(op["T"]), " ".join(map(str, op["T"])), len(op["args"]),
                                                    " ".join(enc(a) for a in op["args"])))
@@ -417,7 +444,7 @@ def run_history(sc, ops):
         elif op["op"] == "setup":
             T = op["T"]
             sel = setups if T is None else [i for i in anc_closure(sc, T) if sc["specs"][i]["setup"]]
-            rec["out"] = attempt(lambda: d.setup() if T is None else d.setup(target_nodes=ids(T)))
+            rec["out"] = attempt(lambda: d.setup() if T is None else d.setup(target_nodes=padded(d, ids(T))))
             rec["line"] = len(lines)
             if T is None:
                 lines.append("O %d setup %d %s" % (inst, len(sel), " ".join(map(str, sel))))
@@ -486,7 +513,8 @@ def run_history(sc, ops):
                 elif mode == "target":
                     sel = anc_closure(sc, T); kw = dict(target_nodes=ids(T))
                 else:
-                    sel = anc_closure(sc, T); kw = dict(cache_deps_of=ids(T))
+                    # (the same target may be named several times: it is one target)
+                    sel = anc_closure(sc, T); kw = dict(cache_deps_of=ids(T) + (ids(T[:1]) if op.get("dup_deps") else []))
                 rec["out"] = attempt(lambda: d.executor(cache_in=path, **kw)(*op["args"]))
                 rec["entered"], rec["dups"] = counters_delta(before, tag, n)
                 # the model runs the executor object itself (VM.xRun) and predicts the file it writes
